@@ -141,6 +141,11 @@ def run_group_constants(ctx, rep):
                 Xs = to_csc(X)
                 seed_numba()
                 Ls = call(obj.get_lipschitz_sparse, Xs.data, Xs.indptr, Xs.indices, y)
+                if not isinstance(Ls, str) and np.any(np.asarray(Ls) < 0.9 * true - 1e-12):
+                    rep.violate("QuadraticGroup.get_lipschitz_sparse is far below the true block constant "
+                                "(beyond the accuracy of the power iteration)",
+                                dict(site="QuadraticGroup.get_lipschitz_sparse", kind="below"), input=inp,
+                                impl_output=canon(Ls), oracle=dict(value=true.tolist()))
                 if isinstance(Ls, str) or np.any(np.asarray(Ls) > true * (1 + 1e-9) + 1e-12):
                     rep.violate("QuadraticGroup.get_lipschitz_sparse is above the true block constant",
                                 dict(site="QuadraticGroup.get_lipschitz_sparse"), input=inp, impl_output=canon(Ls),
